@@ -37,27 +37,27 @@ claimed = {
         design="5.13"),
     "C15": dict(
         level="model_checking",
-        text="Generator side: a todo service compiles to {name, todo} whatever its other attributes and counts as declared; a %todo(args)% parameter compiles to a provider calling paramTodo with the arguments verbatim and counts as declared; every string parameter is emitted as a provider function literal (lazy), never as an evaluated value. Override histories are the runtime library's contract.",
+        text="Generator side: a todo service compiles to {name, todo} whatever its other attributes and counts as declared; a %todo(args)% parameter compiles to a provider calling paramTodo with the arguments verbatim and counts as declared; every string parameter is emitted as a provider function literal (lazy), never as an evaluated value; a reference to another parameter compiles to a run-time look-up and to nothing of that parameter's definition; the _paramTodo / _concatenateChunks helpers the templates emit return the documented error, also inside multi-chunk patterns. Override histories are the runtime library's contract.",
         note="Trusted: exporter stub, solvers.",
         design="5.15"),
     "C03": dict(
         level="model_checking",
-        text="Every feasible path of the chunker (and, as they are added, tokenizer/factories) within the stated string-length bound is explored symbolically from the current SSA; each assertion is an unsat query. This is exhaustive within the bound over the full Unicode alphabet, which sampling cannot give; it says nothing beyond the bound or about the runtime evaluating the emitted closures.",
+        text="Every feasible path of the chunker, tokenizer and token factories within the stated string-length bound is explored symbolically from the current SSA; each assertion is an unsat query (exhaustive within the bound over the full Unicode alphabet). The run-time side is covered where it is the generator's own code: the helpers the templates emit (_getEnv, _getEnvInt, _paramTodo, _concatenateChunks) are executed as SSA from a container the current tree generates at the start of each run, against the reference functions printed in docs/META.md; parameters compile independently of each other; on the shipped wiring only the %...% notation is special in parameters. How the runtime evaluates the emitted closures is outside.",
         note="Trusted: go/ssa front end, the gosmt executor, z3/cvc5; stubs: exporter -> uninterpreted Q. Bounds in evidence.coverage.bounds.",
         design="5.3"),
     "C05": dict(
         level="model_checking",
-        text="ValidateServicesScopes and BuildDependencyGraph are executed symbolically over a small configuration whose names and scope values are symbolic; the verdict must equal a reachability reference written from the property statement (shared ->+ contextual), with one diagnostic per offending pair naming both services. Generator side only: instance identity over Get histories is the runtime library's job.",
+        text="ValidateServicesScopes and BuildDependencyGraph are executed symbolically over a small configuration whose names and scope values are symbolic; the verdict must equal a reachability reference written from the property statement (shared ->+ contextual), with one diagnostic per offending pair naming both services. Also: the declared scopes reach the compiled output from the YAML level (todo services included), the template maps each scope keyword to the matching runtime setter, and every creation method is emitted as a function the runtime calls per instantiation (never a value evaluated once). Generator side only: instance identity over Get histories is the runtime library's job.",
         note="Trusted: abstract model of gontainer-helpers/v3/graph (exact reachability, order of Deps not modelled), solvers. Bounds in evidence.",
         design="5.5"),
     "C06": dict(
         level="model_checking",
-        text="ValidateParamsExist / ValidateServicesExist executed symbolically with a symbolic reference placed in each of the five positions a reference can occur in; accepted iff declared, one diagnostic per dangling reference naming referrer and missing name, todo elements count as declared. Found and fixed: decorator arguments were not walked for parameters (D4).",
+        text="ValidateParamsExist / ValidateServicesExist executed symbolically with a symbolic reference placed in each of the five positions a reference can occur in; accepted iff declared, one diagnostic per dangling reference naming referrer and missing name, todo elements count as declared. The same from the YAML level through the compiler (references alone, inside a multi-chunk pattern, after %%, twice in one pattern), with 0-2 declared parameters, referrers created by a constructor or a value, and leading arguments that refer to nothing; every declared parameter and service is registered in the generated constructor. Found and fixed: decorator arguments were not walked for parameters (D4).",
         note="Trusted: executor, solvers; the link between dependency lists and emitted code is asserted in C03 (reference tokens) and C02.",
         design="5.6"),
     "C07": dict(
         level="model_checking",
-        text="BuildDependencyGraph, ValidateCircularDeps and the runtime's container/internal/graph id scheme are executed symbolically; 'rejected iff the dependency relation of the statement is cyclic' is decided by the solver against a transitive-closure reference over symbolic names, including self-loops, tag and decorator edges and parameter edges.",
+        text="BuildDependencyGraph, ValidateCircularDeps and the runtime's container/internal/graph id scheme are executed symbolically; 'rejected iff the dependency relation of the statement is cyclic' is decided by the solver against a transitive-closure reference over symbolic names, including self-loops, tag and decorator edges (any number of decorators), parameter edges, two references per list, services created by a constructor or a value, names shared across kinds, and parameter cycles from the YAML level in every pattern form.",
         note="Trusted: abstract model of gontainer-helpers/v3/graph (gonum cycle enumeration summarised as: non-empty iff cyclic, a cycle through every node on one); replays of counterexamples run the real gonum code.",
         design="5.7"),
     "C08": dict(
@@ -77,12 +77,12 @@ claimed = {
         design="5.10"),
     "C12": dict(
         level="model_checking",
-        text="Panic-, bounds-, nil- and unwinding obligations are attached to every instruction the engine executes; dedicated harnesses feed the custom YAML unmarshalers every value tree (depth 2) and decoder failure, and run validate -> compile -> output validators with arbitrary strings and any-typed values in each position, plus the aligned printer for all shipped step names and depths. Reaching the end on every feasible path is the claim: total after YAML decoding, up to the stubs.",
+        text="Panic-, bounds-, nil- and unwinding obligations are attached to every instruction the engine executes; dedicated harnesses feed the custom YAML unmarshalers every value tree (depth 2) and decoder failure, and run validate -> compile -> output validators with arbitrary strings and any-typed values in each position, plus the aligned printer for all shipped step names and depths. Also the import alias code and the read step on arbitrary short strings, and the output-file contract of C10. Loops steered by the input have an unwinding bound; outrunning it is a non-termination candidate replayed natively under a deadline. Reaching the end on every feasible path is the claim: total after YAML decoding, up to the stubs.",
         note="Trusted: yaml.v3's own parser, gonum, text/template, go/format are behind stubs, so arbitrary bytes before decoding are outside. Bounds: strings <= 3 (quick) / 4 (thorough).",
         design="5.12"),
     "C16": dict(
         level="model_checking",
-        text="On the shipped wiring (as C10) each of 7 configurations is run without flags and with symbolic --ignore-missing-params / --ignore-missing-services; the diagnostics with flags must equal the flag-less diagnostics minus exactly the ignored class, in the same order; accepted iff that remainder is empty; a configuration accepted without flags yields the same written text under any flags.",
+        text="On the shipped wiring (as C10) each of 20 configurations is run without flags and with symbolic --ignore-missing-params / --ignore-missing-services; the diagnostics with flags must equal the flag-less diagnostics minus exactly the ignored class, in the same order; accepted iff that remainder is empty; a configuration accepted without flags yields the same written text under any flags. Besides this differential relation the verdict and the diagnostic classes are checked against the defect classes each configuration has by construction (rejected iff a class that is not ignored remains; cycle and scope diagnostics present iff the defect is).",
         note="As C10. The instance switched by Active is the instance the runner holds because the model caches decorated services like the runtime does (validated against the native run).",
         design="5.16"),
     "C11": dict(
@@ -97,7 +97,7 @@ claimed = {
         design="5.14"),
     "C18": dict(
         level="model_checking",
-        text="Version.UnmarshalYAML, NewVersionValidator, ValidateVersion and golang.org/x/mod/semver itself are executed as SSA over character-wise symbolic B and V; the accept/reject truth table of the statement is asserted for every (B,V) in the bound and every counterexample is replayed natively. Found and fixed: every declared version was rejected (D1).",
+        text="Version.UnmarshalYAML, NewVersionValidator, ValidateVersion and golang.org/x/mod/semver itself are executed as SSA over character-wise symbolic B and V; the accept/reject truth table of the statement is asserted for every (B,V) in the bound (symbolic suffixes, and four concrete prerelease/build forms on either side) and every counterexample is replayed natively; main.buildVersion is executed over an arbitrary ASCII main.version (a v-prefixed semantic version reaches the gate without the v). Found and fixed: every declared version was rejected (D1).",
         note="Trusted: executor, solvers. Numerals 0..9 for major/patch and 0..99 for minor, suffix <= 1 (quick) / 2 (thorough) ASCII characters; non-ASCII versions are outside (ASCII guard).",
         design="5.18"),
 }
